@@ -79,9 +79,16 @@ class Prop(BaseProp):
         mrng = case_rng("C08-mod", self.seed, self.tier, mi)
         b = Builder(mrng, p_doc=0.5, max_depth=3, max_items=7, compound_generic=False, allow_dangling=False,
                     kinds=["function", "macro", "option", "set", "add_test", "ct_add_test", "cpp_class", "cpp_class",
-                           "generic", "plain", "block", "cpa"])
+                           "generic", "plain", "block", "cpa", "function", "cpa"], p_reuse_params=0.35)
         mod = b.module()
         text = render(mod, Layout(mrng, comments=0.05, wild=0.1, case="random"))
+        # non-flag settings are the same under defaults and under X; half of the modules use parameter strip patterns
+        other = {}
+        if mrng.random() < 0.5:
+            other = {"function_parameter_name_strip_regex": mrng.choice(["^_[a-z]+_", "Z\\d+$", "^p"]),
+                     "macro_parameter_name_strip_regex": mrng.choice(["", "^p", "N"]),
+                     "member_parameter_name_strip_regex": mrng.choice(["", "^p"])}
+        res.see("strip_patterns_in_use", bool(other))
         if self.tier == "thorough":
             allc = list(itertools.product([True, False], repeat=10))
             combos = allc[bi * 64:(bi + 1) * 64]
@@ -110,7 +117,7 @@ class Prop(BaseProp):
         res.sig = sig_hash([mod.shape(), bi])
         res.nontrivial = ndoc >= 1 and nund >= 1
         wit0 = {"text": text}
-        o0, _ = runner.document_text(text, runner.make_settings())
+        o0, _ = runner.document_text(text, runner.make_settings(input=dict(other)))
         if not o0.ok:
             res.violate(o0.crash_class() or "exit", f"default settings: {str(o0.exc)[:200]}", wit0)
             return res
@@ -121,7 +128,7 @@ class Prop(BaseProp):
             res.count("combos_run")
             if not X["cpp_class"]:
                 res.count("class_flag_off_combos")
-            settings = runner.make_settings(input={f"include_undocumented_{k}": v for k, v in X.items()})
+            settings = runner.make_settings(input=dict(other, **{f"include_undocumented_{k}": v for k, v in X.items()}))
             o, _ = runner.document_text(text, settings)
             off = [k for k, v in X.items() if not v]
             wit = {"text": text, "flags_off": off}
